@@ -198,6 +198,11 @@ func (s *Session) DischargeAll(results []*FuncResult, sub string) {
 			res, all := Discharge(o.File, to)
 			mu.Lock()
 			o.Status, o.Solver, o.Time, o.AllRes = res.Status, res.Solver, res.Time, all
+			if strings.HasPrefix(res.Output, "cross-check: confirmed") {
+				o.Cross = "confirmed"
+			} else if strings.HasPrefix(res.Output, "cross-check: unconfirmed") {
+				o.Cross = "unconfirmed"
+			}
 			if os.Getenv("GOVC_PROGRESS") != "" {
 				fmt.Fprintf(os.Stderr, "done %-8s %6.2fs %s %s\n", res.Status, res.Time, o.FullName(), o.File)
 			}
